@@ -1,6 +1,6 @@
 ---------------------------- MODULE ImportSetTrace ----------------------------
 (* Trace validation for C12: every recorded (import ...) of the real interpreter must have bound
-   exactly ApplyDecl(decl).  Events: {"ev":"import","decl":[term...],"obs":[{"name","origin"}...]} *)
+   exactly ApplyDecl(decl).  Events: {"ev":"import","decl":[term...],"failed":BOOLEAN,"obs":[{"name","origin"}...]} *)
 EXTENDS ImportSet, IOUtils
 
 Rec == ndJsonDeserialize(IOEnv.TRACE)
@@ -16,7 +16,8 @@ Check ==
   /\ l <= Len(Rec)
   /\ LET e == Rec[l]
          expected == ApplyDecl(e.decl)
-         ok == AdmissibleDecl(e.decl) => expected = Observed(e)
+         ok == IF AdmissibleDecl(e.decl) THEN ~e.failed /\ expected = Observed(e)
+               ELSE AdmissibleDeclButForStrays(e.decl) => (e.failed \/ expected = Observed(e))
      IN  IF ok THEN bad' = bad
          ELSE /\ PrintT(<<"MISMATCH", ToJson([event |-> l, decl |-> e.decl,
                      expected |-> SetToSeq({[name |-> b[1], origin |-> b[2]] : b \in expected}),
